@@ -121,12 +121,23 @@ func (t *Tracker) UseAfterClose() int {
 
 // ---- spy metastore ----
 
+type StoreEvent struct {
+	ID      string
+	Created int64
+	EKR     *ae.EnvelopeKeyRecord
+	OK      bool
+}
+
 type Spy struct {
 	Inner                  *persistence.MemoryMetastore
 	Loads, Latests, Stores int
 	Yield                  bool
 	Suffix                 string
+	Written                []StoreEvent // successful inserts, in order
 }
+
+// GetRegionSuffix makes the SDK use region-suffixed key ids when Suffix is set.
+func (s *Spy) GetRegionSuffix() string { return s.Suffix }
 
 func NewSpy() *Spy { return &Spy{Inner: persistence.NewMemoryMetastore()} }
 
@@ -166,11 +177,17 @@ func (s *Spy) Store(ctx context.Context, id string, created int64, ekr *ae.Envel
 		case 1:
 			return false, nil // false "duplicate" without write
 		default:
-			s.Inner.Store(ctx, id, created, ekr)
+			if ok, _ := s.Inner.Store(ctx, id, created, ekr); ok {
+				s.Written = append(s.Written, StoreEvent{id, created, ekr, true})
+			}
 			return false, errors.New("vx: injected metastore Store failure after the write")
 		}
 	}
-	return s.Inner.Store(ctx, id, created, ekr)
+	ok, err := s.Inner.Store(ctx, id, created, ekr)
+	if ok {
+		s.Written = append(s.Written, StoreEvent{id, created, ekr, true})
+	}
+	return ok, err
 }
 
 // Row returns the stored record or nil.
